@@ -122,12 +122,97 @@ fn owned_scopes_dump() -> String {
     lines.join("\n")
 }
 
+/// Canonicalise a `Debug` rendering: the elements of every map/set group (`{…}` that is not a
+/// struct body, i.e. not preceded by a type name) are sorted, because hash-map iteration order
+/// depends on interning order of the keys, which a restore legitimately changes.
+fn canon_debug(s: &str) -> String {
+    fn group(b: &[u8], i: &mut usize, close: u8, sort: bool) -> String {
+        // reads items separated by top-level ", " until `close`; returns the rendered inside
+        let mut items: Vec<String> = vec![];
+        let mut cur = String::new();
+        while *i < b.len() {
+            let c = b[*i];
+            if c == close {
+                break;
+            }
+            match c {
+                b'"' => {
+                    let start = *i;
+                    *i += 1;
+                    while *i < b.len() && b[*i] != b'"' {
+                        if b[*i] == b'\\' {
+                            *i += 1;
+                        }
+                        *i += 1;
+                    }
+                    *i = (*i + 1).min(b.len());
+                    cur.push_str(&String::from_utf8_lossy(&b[start..*i]));
+                }
+                b'{' | b'(' | b'[' => {
+                    let cl = match c {
+                        b'{' => b'}',
+                        b'(' => b')',
+                        _ => b']',
+                    };
+                    // struct body: `Name {`; map or set: anything else before the brace
+                    let t = cur.trim_end();
+                    let struct_like = t.chars().last().is_some_and(|x| x.is_alphanumeric() || x == '_') && cur.ends_with(' ');
+                    let sort_inner = c == b'{' && !struct_like;
+                    *i += 1;
+                    let inner = group(b, i, cl, sort_inner);
+                    *i += 1; // closing
+                    cur.push(c as char);
+                    cur.push_str(&inner);
+                    cur.push(cl as char);
+                }
+                b',' if b.get(*i + 1) == Some(&b' ') => {
+                    items.push(std::mem::take(&mut cur));
+                    *i += 2;
+                }
+                _ => {
+                    let ch_len = match c {
+                        0..=0x7f => 1,
+                        0xc0..=0xdf => 2,
+                        0xe0..=0xef => 3,
+                        _ => 4,
+                    };
+                    let end = (*i + ch_len).min(b.len());
+                    cur.push_str(&String::from_utf8_lossy(&b[*i..end]));
+                    *i = end;
+                }
+            }
+        }
+        if !cur.is_empty() || !items.is_empty() {
+            items.push(cur);
+        }
+        if sort {
+            items.sort();
+        }
+        items.join(", ")
+    }
+    let b = s.as_bytes();
+    let mut i = 0;
+    let mut out = String::new();
+    while i < b.len() {
+        out.push_str(&group(b, &mut i, 0, false));
+        if i < b.len() {
+            out.push(b[i] as char);
+            i += 1;
+        }
+    }
+    out
+}
+
+thread_local!(static FIRST_USER_SYMBOL: std::cell::Cell<usize> = const { std::cell::Cell::new(0) });
+
+/// Every symbol created after `Analyzer::new` (builtins are identical in both runs by construction).
 fn symbols_full_dump() -> String {
-    let mut all = symbol_table::get_all();
+    let first = FIRST_USER_SYMBOL.with(|x| x.get());
+    let mut all: Vec<_> = symbol_table::get_all().into_iter().filter(|s| s.id.0 > first).collect();
     all.sort_by_key(|s| s.id);
     let mut out = String::new();
     for s in &all {
-        out.push_str(&format!("{} {}: {}\n", s.id.0, kind_name(&s.kind), norm_debug(&format!("{s:?}"))));
+        out.push_str(&format!("{} {}: {}\n", s.id.0, kind_name(&s.kind), canon_debug(&norm_debug(&format!("{s:?}")))));
     }
     out
 }
@@ -175,6 +260,7 @@ pub fn run(files: &[FileSrc], f_pos: usize, mode: &FMode, full: bool) -> RunOut 
     let mut errors: Vec<AnalyzerError> = vec![];
     let mut parsers: Vec<Option<Parser>> = vec![];
     let symbol_before = veryl_analyzer::symbol::peek_symbol_id();
+    FIRST_USER_SYMBOL.with(|x| x.set(symbol_before));
     let mut f_window = (symbol_before, symbol_before);
     for (k, f) in files.iter().enumerate() {
         if k == f_pos {
@@ -315,6 +401,24 @@ fn trunc(s: &str, n: usize) -> String {
     format!("{}…", &s[..k])
 }
 
+/// `a` cut to a window around the first byte where it differs from `b` (plus the line head)
+fn window(a: &str, b: &str) -> String {
+    if a.len() <= 360 {
+        return a.to_string();
+    }
+    let k = a.bytes().zip(b.bytes()).position(|(x, y)| x != y).unwrap_or(a.len().min(b.len()));
+    let mut lo = k.saturating_sub(160);
+    while !a.is_char_boundary(lo) {
+        lo -= 1;
+    }
+    let mut hi = (k + 200).min(a.len());
+    while !a.is_char_boundary(hi) {
+        hi += 1;
+    }
+    let head = trunc(a, 60);
+    if lo <= 60 { trunc(a, hi) } else { format!("{head} … {}{}", &a[lo..hi], if hi < a.len() { "…" } else { "" }) }
+}
+
 /// which symbol kind / table a differing dump line is about
 fn line_class(dump: &str, parsed: &str, restored: &str) -> String {
     let l = if parsed != "<end of dump>" { parsed } else { restored };
@@ -341,7 +445,7 @@ pub fn compare(a: &RunOut, b: &RunOut) -> Vec<Diff> {
             let class = line_class(name, &la, &lb);
             diffs.push(Diff {
                 signature: format!("dump:{name}:{class}"),
-                what: format!("{name} differs at line {n}: parsed {:?} / restored {:?}", trunc(&la, 400), trunc(&lb, 400)),
+                what: format!("{name} differs at line {n}: parsed {:?} / restored {:?}", window(&la, &lb), window(&lb, &la)),
             });
         }
     }
@@ -417,10 +521,10 @@ pub fn check_pair(files: &[FileSrc], f: usize, i: usize, j: usize, full: bool, p
     if let Some(e) = a_i.parse_error {
         return PairOutcome::Skipped(e);
     }
-    let bytes = match a_i.capture {
+    let bytes = match &a_i.capture {
         None => return PairOutcome::NotCacheable,
-        Some(Err(e)) => return PairOutcome::CaptureRefused(e),
-        Some(Ok(b)) => Arc::new(b),
+        Some(Err(e)) => return PairOutcome::CaptureRefused(e.clone()),
+        Some(Ok(b)) => Arc::new(b.clone()),
     };
     let a_j = if i == j {
         a_i
